@@ -142,7 +142,7 @@ def main(tier, seed, replay=None):
 
         classes = [("Solver", claripy.Solver, True), ("SolverCacheless", claripy.SolverCacheless, True),
                    ("SolverComposite", claripy.SolverComposite, False)]
-        iters = 260 if tier == "quick" else 6000
+        iters = 600 if tier == "quick" else 6000
         # targeted: constant merge conditions and participants that hold a concrete False (found by the thorough tier:
         # the composite's merged .constraints lost the False that makes it unsatisfiable)
         for cname, cls, _m in classes:
